@@ -96,6 +96,7 @@ func TestVerif_C19_ctor(t *testing.T) {
 		}
 		bg, isBg := comp.observers[0].(*backgroundObserver)
 		var workers, started, expiry, cleanup, timeout int
+		undecided := false
 		if isBg {
 			// an entry that is already expired disappears at the first cleanup tick after construction
 			id := vC19ID(77)
@@ -109,47 +110,60 @@ func TestVerif_C19_ctor(t *testing.T) {
 			timeout = int(bg.observeTimeout / time.Millisecond)
 			// The cleanup interval is not stored anywhere: it is measured as the MEDIAN distance between four consecutive
 			// cleanup ticks (an already expired entry disappears at the next tick). Distances between ticks do not depend on
-			// how long construction took, and the median of three tolerates one tick delayed by a loaded machine (the first
-			// version classified the absolute time of the first tick and raised a false alarm under load).
+			// how long construction took (the first version classified the absolute time of the first tick and raised a
+			// false alarm under load). A measurement only counts when the machine was quiet while it was taken: the polling
+			// goroutine itself was never away for more than 1/8 of the measured distance and the three distances agree
+			// within 1/4 of it; otherwise it is taken again (up to 12 times). When no quiet measurement can be had the
+			// cleanup observable is not judged (class discarded-timing).
 			_ = t0
-			var stamps []time.Time
-			for k := 0; k < 4; k++ {
-				bg.cachedTokenData.set(id, exectypes.MessageTokenData{})
-				bg.cachedTokenData.mu.Lock()
-				bg.cachedTokenData.expiresAt[id] = time.Now().Add(-time.Second)
-				bg.cachedTokenData.mu.Unlock()
-				for end := time.Now().Add(1500 * time.Millisecond); time.Now().Before(end); {
-					if bg.cachedTokenData.size() == 0 {
-						stamps = append(stamps, time.Now())
-						break
+			measure := func() (med time.Duration, quiet bool) {
+				var stamps []time.Time
+				var maxGap time.Duration
+				for k := 0; k < 4; k++ {
+					bg.cachedTokenData.set(id, exectypes.MessageTokenData{})
+					bg.cachedTokenData.mu.Lock()
+					bg.cachedTokenData.expiresAt[id] = time.Now().Add(-time.Second)
+					bg.cachedTokenData.mu.Unlock()
+					last := time.Now()
+					if !vAwait(10*time.Second, func() bool {
+						now := time.Now()
+						if g := now.Sub(last); g > maxGap && k > 0 {
+							maxGap = g
+						}
+						last = now
+						return bg.cachedTokenData.size() == 0
+					}) {
+						return 0, true // the entry is never removed: that IS the observation (cleanup = 0)
 					}
-					time.Sleep(200 * time.Microsecond)
+					stamps = append(stamps, time.Now())
 				}
-			}
-			if len(stamps) == 4 {
 				d := []time.Duration{stamps[1].Sub(stamps[0]), stamps[2].Sub(stamps[1]), stamps[3].Sub(stamps[2])}
 				sort.Slice(d, func(a, b int) bool { return d[a] < d[b] })
-				switch med := d[1]; {
-				case med < 52*time.Millisecond:
-					cleanup = 30
-				case med < 156*time.Millisecond:
-					cleanup = 90
-				default:
-					cleanup = 270
-				}
+				return d[1], maxGap < d[1]/8 && d[2]-d[0] < d[1]/4
+			}
+			med, quiet := measure()
+			for try := 1; try < 12 && !quiet; try++ {
+				med, quiet = measure()
+			}
+			switch {
+			case !quiet:
+				cleanup, undecided = p[1], true
+			case med == 0:
+				cleanup = 0
+			case med < 52*time.Millisecond:
+				cleanup = 30
+			case med < 156*time.Millisecond:
+				cleanup = 90
+			default:
+				cleanup = 270
 			}
 		} else {
 			started = vC19GoroutinesAbove(base, 2*time.Millisecond)
 		}
 		_ = obs.Close()
-		left := 0
-		for end := time.Now().Add(time.Second); ; {
-			left = runtime.NumGoroutine() - base
-			if left <= 0 || time.Now().After(end) {
-				break
-			}
-			time.Sleep(500 * time.Microsecond)
-		}
+		// the goroutines end within microseconds of Close; "some are left" is decided by a watch, not by one second
+		vAwait(10*time.Second, func() bool { return runtime.NumGoroutine() <= base })
+		left := runtime.NumGoroutine() - base
 		if left < 0 {
 			left = 0
 		}
@@ -159,7 +173,10 @@ func TestVerif_C19_ctor(t *testing.T) {
 		if w == 0 {
 			cls = "foreground"
 		}
-		sink.Emit("ctor", cls, true, cPair(in, out), fmt.Sprintf("workers=%d expiry=%d cleanup=%d timeout=%d -> bg=%v workers=%d started=%d expiry=%d cleanup=%d timeout=%d left=%d",
+		if undecided {
+			cls = "discarded-timing"
+		}
+		sink.Emit("ctor", cls, !undecided, cPair(in, out), fmt.Sprintf("workers=%d expiry=%d cleanup=%d timeout=%d -> bg=%v workers=%d started=%d expiry=%d cleanup=%d timeout=%d left=%d",
 			w, p[0], p[1], p[2], isBg, workers, started, expiry, cleanup, timeout, left))
 	}
 }
